@@ -585,6 +585,31 @@ func (m *Model) buildMap(named *types.Named, iface string) *MapModel {
 		}
 	}
 	if mm.Copy != nil {
+		// only helpers that (directly or through another helper) call the copy routine hold the copy loop
+		calls := map[*ssa.Function]bool{}
+		for changed := true; changed; {
+			changed = false
+			for _, h := range mm.ResizeHelpers {
+				if calls[h] {
+					continue
+				}
+				Instrs(h, func(in ssa.Instruction) {
+					if c, ok := in.(ssa.CallInstruction); ok {
+						if cal := Callee(c); cal != nil && (cal == mm.Copy || calls[cal]) {
+							calls[h] = true
+							changed = true
+						}
+					}
+				})
+			}
+		}
+		var kept []*ssa.Function
+		for _, h := range mm.ResizeHelpers {
+			if calls[h] {
+				kept = append(kept, h)
+			}
+		}
+		mm.ResizeHelpers = kept
 		Instrs(mm.Copy, func(in ssa.Instruction) {
 			if c, ok := in.(ssa.CallInstruction); ok {
 				cal := Callee(c)
